@@ -123,62 +123,165 @@ pub fn violated(db: &Database, decls: &[Decl]) -> Vec<String> {
 }
 
 pub fn alphabet(tier_thorough: bool) -> Vec<String> {
-    let mut a: Vec<String> = vec![
-        // single-row inserts over keys {1,2,3,5}
-        "INSERT INTO d VALUES (1, 10, 0)".into(),
-        "INSERT INTO d VALUES (2, 20, 1)".into(),
-        "INSERT INTO d VALUES (3, 10, 0)".into(),
-        "INSERT INTO d VALUES (5, NULL, 2)".into(),
-        "INSERT INTO d VALUES (2, 30, NULL)".into(),
-        // the 4-row ascending insert arms the append-mode tracker in one step
-        "INSERT INTO d VALUES (1, 10, 0), (2, 20, 0), (3, 30, 0), (4, 40, 0)".into(),
-        // in-batch duplicate
-        "INSERT INTO d VALUES (6, 60, 0), (6, 61, 0)".into(),
-        "INSERT INTO d (id, v, w) VALUES (7, 70, 0), (8, 70, 0)".into(),
-        // INSERT ... SELECT: bulk path and column-list (normal) path
-        "INSERT INTO d SELECT * FROM s".into(),
-        "INSERT INTO d (id, v, w) SELECT id, v, w FROM s".into(),
-        "INSERT INTO s VALUES (2, 99, 0)".into(),
-        "INSERT INTO s VALUES (9, 10, 0)".into(),
-        "INSERT INTO s VALUES (9, 98, 0)".into(),
-        // key-changing updates
-        "UPDATE d SET id = 7".into(),
-        "UPDATE d SET id = id + 1".into(),
-        "UPDATE d SET v = 5".into(),
-        "UPDATE d SET id = 2 WHERE id = 1".into(),
-        "UPDATE d SET w = w - 1".into(),
-        "UPDATE d SET w = NULL WHERE id = 1".into(),
-        "UPDATE d SET v = 20 WHERE id = 1".into(),
-        "DELETE FROM d WHERE id = 2".into(),
-        "DELETE FROM d".into(),
-        "TRUNCATE TABLE d".into(),
-        // composite key
-        "INSERT INTO d2 VALUES (1, 1)".into(),
-        "INSERT INTO d2 VALUES (1, 2), (1, 1)".into(),
-        "INSERT INTO d2 VALUES (1, NULL)".into(),
-        "UPDATE d2 SET b = 1".into(),
-        // unique index on e(v)
-        "INSERT INTO e VALUES (1, 10)".into(),
-        "INSERT INTO e VALUES (2, 10)".into(),
-        "INSERT INTO e VALUES (3, 11), (4, 11)".into(),
-        "UPDATE e SET v = 12".into(),
-    ];
+    let mut a: Vec<String> = vec![];
+    // --- table d: the product of statement shapes over a small value domain (every statement is
+    // one alphabet element; BFS forms all histories). id ∈ {1,2,3}, v ∈ {NULL,10,20}, w ∈ {0,1}.
+    let ids = ["1", "2", "3"];
+    let vs = ["NULL", "10", "20"];
+    for (i, id) in ids.iter().enumerate() {
+        for v in vs {
+            a.push(format!("INSERT INTO d VALUES ({}, {}, {})", id, v, i % 2));
+        }
+    }
+    a.push("INSERT INTO d VALUES (5, NULL, 2)".into());
+    a.push("INSERT INTO d VALUES (2, 30, NULL)".into());
+    a.push("INSERT INTO d VALUES (NULL, 30, 0)".into());
+    // the 4-row ascending insert arms the append-mode tracker in one step
+    a.push("INSERT INTO d VALUES (1, 10, 0), (2, 20, 0), (3, 30, 0), (4, 40, 0)".into());
+    // in-batch duplicates (key and unique column), incl. a NULL in between
+    a.push("INSERT INTO d VALUES (6, 60, 0), (6, 61, 0)".into());
+    a.push("INSERT INTO d (id, v, w) VALUES (7, 70, 0), (8, 70, 0)".into());
+    a.push("INSERT INTO d VALUES (7, NULL, 0), (8, NULL, 0)".into());
+    // UPDATE of the unique column: every value (NULL -> value, value -> NULL, value -> value) x every row selector
+    let wheres = ["", " WHERE id = 1", " WHERE id = 2", " WHERE id = 3"];
+    for v in vs {
+        for w in wheres {
+            a.push(format!("UPDATE d SET v = {}{}", v, w));
+        }
+    }
+    a.push("UPDATE d SET v = 5".into());
+    a.push("UPDATE d SET v = v + 10".into());
+    a.push("UPDATE d SET v = 30 - v".into());
+    // UPDATE of the primary key
+    for id in ["1", "2", "NULL"] {
+        for w in ["", " WHERE id = 1", " WHERE id = 3"] {
+            a.push(format!("UPDATE d SET id = {}{}", id, w));
+        }
+    }
+    a.push("UPDATE d SET id = 7".into());
+    a.push("UPDATE d SET id = id + 1".into());
+    a.push("UPDATE d SET id = 3 - id".into());
+    a.push("UPDATE d SET id = 2, v = 20 WHERE id = 1".into());
+    a.push("UPDATE d SET id = 2, v = NULL WHERE id = 1".into());
+    // NOT NULL / CHECK
+    a.push("UPDATE d SET w = w - 1".into());
+    a.push("UPDATE d SET w = NULL WHERE id = 1".into());
+    a.push("UPDATE d SET w = NULL".into());
+    for id in ids {
+        a.push(format!("DELETE FROM d WHERE id = {}", id));
+    }
+    a.push("DELETE FROM d WHERE v = 10".into());
+    a.push("DELETE FROM d".into());
+    a.push("TRUNCATE TABLE d".into());
+    // INSERT ... SELECT: bulk path and column-list (normal) path
+    a.push("INSERT INTO d SELECT * FROM s".into());
+    a.push("INSERT INTO d (id, v, w) SELECT id, v, w FROM s".into());
+    a.push("INSERT INTO s VALUES (2, 99, 0)".into());
+    a.push("INSERT INTO s VALUES (9, 10, 0)".into());
+    a.push("INSERT INTO s VALUES (9, 98, 0)".into());
+    a.push("INSERT INTO s VALUES (8, NULL, 0)".into());
+    // --- composite key
+    a.push("INSERT INTO d2 VALUES (1, 1)".into());
+    a.push("INSERT INTO d2 VALUES (1, 2)".into());
+    a.push("INSERT INTO d2 VALUES (2, 1)".into());
+    a.push("INSERT INTO d2 VALUES (1, 2), (1, 1)".into());
+    a.push("INSERT INTO d2 VALUES (1, NULL)".into());
+    a.push("UPDATE d2 SET b = 1".into());
+    a.push("UPDATE d2 SET a = 1".into());
+    a.push("UPDATE d2 SET a = b, b = a".into());
+    a.push("DELETE FROM d2 WHERE b = 1".into());
+    // --- unique index on e(v): same NULL / value transitions
+    a.push("INSERT INTO e VALUES (1, 10)".into());
+    a.push("INSERT INTO e VALUES (2, 10)".into());
+    a.push("INSERT INTO e VALUES (2, NULL)".into());
+    a.push("INSERT INTO e VALUES (3, 11), (4, 11)".into());
+    a.push("UPDATE e SET v = 12".into());
+    a.push("UPDATE e SET v = 10 WHERE id = 2".into());
+    a.push("UPDATE e SET v = NULL WHERE id = 1".into());
+    a.push("DELETE FROM e WHERE id = 1".into());
     if tier_thorough {
-        a.extend(
-            [
-                "REPLACE INTO d VALUES (1, 20, 0)",
-                "REPLACE INTO d VALUES (3, 10, 0)",
-                "INSERT INTO d VALUES (1, 50, 0) ON DUPLICATE KEY UPDATE v = 20",
-                "INSERT INTO d VALUES (1, 50, 0) ON DUPLICATE KEY UPDATE id = 2",
-                "ALTER TABLE e ADD CONSTRAINT ue2 UNIQUE (id)",
-                "ALTER TABLE e ADD CONSTRAINT pke PRIMARY KEY (id)",
-                "INSERT INTO e VALUES (1, 13)",
-                "DELETE FROM s",
-                "UPDATE d SET id = 3 - id",
-            ]
-            .iter()
-            .map(|s| s.to_string()),
-        );
+        for s in [
+            "REPLACE INTO d VALUES (1, 20, 0)",
+            "REPLACE INTO d VALUES (3, 10, 0)",
+            "REPLACE INTO d VALUES (2, NULL, 0)",
+            "INSERT INTO d VALUES (1, 50, 0) ON DUPLICATE KEY UPDATE v = 20",
+            "INSERT INTO d VALUES (1, 50, 0) ON DUPLICATE KEY UPDATE v = NULL",
+            "INSERT INTO d VALUES (2, 50, 0) ON DUPLICATE KEY UPDATE v = 10",
+            "INSERT INTO d VALUES (1, 50, 0) ON DUPLICATE KEY UPDATE id = 2",
+            "INSERT INTO d VALUES (4, 10, 0) ON DUPLICATE KEY UPDATE w = 1",
+            "ALTER TABLE e ADD CONSTRAINT ue2 UNIQUE (id)",
+            "ALTER TABLE e ADD CONSTRAINT pke PRIMARY KEY (id)",
+            "INSERT INTO e VALUES (1, 13)",
+            "INSERT INTO e VALUES (NULL, 14)",
+            "DELETE FROM s",
+            "CREATE UNIQUE INDEX ud ON d (w)",
+            "DROP INDEX ud",
+        ] {
+            a.push(s.to_string());
+        }
+    }
+    a.sort();
+    a.dedup();
+    // simplest first: shorter statements before longer ones (stable for equal length)
+    a.sort_by_key(|s| s.len());
+    a
+}
+
+/// The smaller alphabet the deep search uses (the full product alphabet is searched to a smaller depth).
+pub fn core_alphabet(tier_thorough: bool) -> Vec<String> {
+    let mut a: Vec<String> = [
+        "INSERT INTO d VALUES (1, 10, 0)",
+        "INSERT INTO d VALUES (2, 20, 1)",
+        "INSERT INTO d VALUES (3, 10, 0)",
+        "INSERT INTO d VALUES (5, NULL, 2)",
+        "INSERT INTO d VALUES (2, 30, NULL)",
+        "INSERT INTO d VALUES (1, 10, 0), (2, 20, 0), (3, 30, 0), (4, 40, 0)",
+        "INSERT INTO d VALUES (6, 60, 0), (6, 61, 0)",
+        "INSERT INTO d (id, v, w) VALUES (7, 70, 0), (8, 70, 0)",
+        "INSERT INTO d SELECT * FROM s",
+        "INSERT INTO d (id, v, w) SELECT id, v, w FROM s",
+        "INSERT INTO s VALUES (2, 99, 0)",
+        "INSERT INTO s VALUES (9, 10, 0)",
+        "INSERT INTO s VALUES (9, 98, 0)",
+        "UPDATE d SET id = 7",
+        "UPDATE d SET id = id + 1",
+        "UPDATE d SET v = 5",
+        "UPDATE d SET id = 2 WHERE id = 1",
+        "UPDATE d SET w = w - 1",
+        "UPDATE d SET w = NULL WHERE id = 1",
+        "UPDATE d SET v = 20 WHERE id = 1",
+        "UPDATE d SET v = 20 WHERE id = 5",
+        "DELETE FROM d WHERE id = 2",
+        "DELETE FROM d",
+        "TRUNCATE TABLE d",
+        "INSERT INTO d2 VALUES (1, 1)",
+        "INSERT INTO d2 VALUES (1, 2), (1, 1)",
+        "INSERT INTO d2 VALUES (1, NULL)",
+        "UPDATE d2 SET b = 1",
+        "INSERT INTO e VALUES (1, 10)",
+        "INSERT INTO e VALUES (2, 10)",
+        "INSERT INTO e VALUES (2, NULL)",
+        "INSERT INTO e VALUES (3, 11), (4, 11)",
+        "UPDATE e SET v = 12",
+        "UPDATE e SET v = 10 WHERE id = 2",
+    ]
+    .iter()
+    .map(|s| s.to_string())
+    .collect();
+    if tier_thorough {
+        for s in [
+            "REPLACE INTO d VALUES (1, 20, 0)",
+            "REPLACE INTO d VALUES (3, 10, 0)",
+            "INSERT INTO d VALUES (1, 50, 0) ON DUPLICATE KEY UPDATE v = 20",
+            "INSERT INTO d VALUES (1, 50, 0) ON DUPLICATE KEY UPDATE id = 2",
+            "ALTER TABLE e ADD CONSTRAINT ue2 UNIQUE (id)",
+            "ALTER TABLE e ADD CONSTRAINT pke PRIMARY KEY (id)",
+            "INSERT INTO e VALUES (1, 13)",
+            "DELETE FROM s",
+            "UPDATE d SET id = 3 - id",
+        ] {
+            a.push(s.to_string());
+        }
     }
     a
 }
@@ -211,13 +314,8 @@ impl Spec for C10Spec {
             );
             return None; // do not explore from an already inconsistent state
         }
-        if let Out::Panic(m) = out {
-            rep.violation(
-                &[("constraint", "panic".into()), ("stmt", op.to_string())],
-                format!("`{}` panicked: {}", op, m),
-                json!({"prelude": PRELUDE, "steps": hist}),
-            );
-        }
+        // a panicking statement is not a constraint violation (that is property C24); the invariant
+        // above was evaluated on the state it left behind, and the search continues from it
         Some(())
     }
 }
@@ -227,14 +325,23 @@ pub fn run(tier: &str) -> i32 {
     vibesql_types::verif::reset();
     let thorough = tier == "thorough";
     let spec = C10Spec { alphabet: alphabet(thorough) };
-    let (d_state, d_tree) = if thorough { (6, 3) } else { (4, 2) };
-    let caps = Caps { max_states: if thorough { 1_500_000 } else { 200_000 }, max_secs: if thorough { 900.0 } else { 40.0 } };
+    let core = C10Spec { alphabet: core_alphabet(thorough) };
+    // full product alphabet to a smaller depth, core alphabet deeper
+    let (d_full, d_core, d_tree) = if thorough { (5, 6, 2) } else { (3, 4, 2) };
+    let caps = Caps { max_states: if thorough { 3_000_000 } else { 200_000 }, max_secs: if thorough { 700.0 } else { 25.0 } };
     // the stateless guard runs first: the stateful search may stop on its memory guard, and RSS
     // is not returned to the OS afterwards
     let st2 = histmc::bfs(&spec, d_tree, false, &rep, &Caps { max_states: 5_000_000, max_secs: 300.0 });
-    let st = histmc::bfs(&spec, d_state, true, &rep, &caps);
-    histmc::stats_into(&mut rep, "", &st);
+    let stc = histmc::bfs(&core, d_core, true, &rep, &Caps { max_states: caps.max_states, max_secs: if thorough { 500.0 } else { 20.0 } });
+    let st = histmc::bfs(&spec, d_full, true, &rep, &caps);
+    histmc::stats_into(&mut rep, "full_", &st);
+    histmc::stats_into(&mut rep, "core_", &stc);
     histmc::stats_into(&mut rep, "stateless_guard_", &st2);
+    rep.set("states", json!(st.states + stc.states));
+    rep.set("transitions", json!(st.transitions + stc.transitions + st2.transitions));
+    rep.set("depth_completed", json!({"full_alphabet": st.depth_completed, "core_alphabet": stc.depth_completed, "stateless": st2.depth_completed}));
+    rep.set("core_alphabet_size", json!(core.alphabet.len()));
+    let st = histmc::Stats { capped: st.capped || stc.capped, ..st };
     rep.set("alphabet_size", json!(spec.alphabet.len()));
     rep.set("exhaustive", json!(!st.capped && !st2.capped));
     rep.set("samples", json!(st.samples));
